@@ -1,6 +1,6 @@
 (* C02 - application messages: exactly once, under the sender's identity and content, valid on the winning branch.
    Statements only (engine level). *)
-From MDK Require Import Base.Prelude Base.AMap Mdk.Engine Mdk.EngineSpec Mdk.EngineProofs.
+From MDK Require Import Base.Prelude Base.AMap Mdk.Engine Mdk.EngineSpec Mdk.EngineProofs Mdk.EngineProofs7.
 
 (* a processed application message is stored exactly once, as Processed, under the receiver's current epoch *)
 Theorem C02_app_stored_once : forall c e,
@@ -36,3 +36,62 @@ Theorem C02_late_message_refuted : exists c msg worse better,
   exists mr, aget N.eqb (e_msg msg) (msgs c') = Some mr /\ m_state mr = MS_INVALID.
 Proof. exact late_message_refuted. Qed.
 Print Assumptions C02_late_message_refuted.
+
+(* ---------------------------------------------------------------- second batch *)
+(* a rollback to epoch ep leaves every message of epoch <= ep exactly as it was (the complement of
+   C02_rollback_invalidates_later: the rollback target epoch itself is on both branches) *)
+Theorem C02_rollback_keeps_earlier : forall c ep s m mr,
+  aget N.eqb m (msgs c) = Some mr -> m_epoch mr <= ep -> aget N.eqb m (msgs (rollback c ep s)) = Some mr.
+Proof. exact rollback_keeps_earlier. Qed.
+Print Assumptions C02_rollback_keeps_earlier.
+
+(* delivering commits never creates, removes or re-keys a message; it can only invalidate messages of later epochs.
+   STATEMENT CHANGE: hypothesis `not_own_wrapper_of c e m` added
+     (e_author e = me c -> forall r, aget N.eqb (e_id e) (dedup c) = Some r -> d_msg r <> Some m):
+   the model takes event facts as inputs, so an event numbered like the wrapper of one of the receiver's own Created
+   messages, authored by the receiver but of kind 0, takes the own-echo path and confirms that message
+   (Created -> Processed) - counterexample C02_commit_statement_counterexample.  The hypothesis holds whenever the commit
+   is foreign or its event number is unrecorded (foreign_not_own_wrapper, unrecorded_not_own_wrapper). *)
+Theorem C02_commit_touches_no_earlier_message : forall c e m mr,
+  e_kind e = 0 -> not_own_wrapper_of c e m ->
+  aget N.eqb m (msgs c) = Some mr -> m_epoch mr <= e_epoch e ->
+  aget N.eqb m (msgs (fst (deliver c e))) = Some mr.
+Proof. exact commit_touches_no_earlier_message. Qed.
+Print Assumptions C02_commit_touches_no_earlier_message.
+
+(* the original conclusion for commits of other members *)
+Theorem C02_foreign_commit_touches_no_earlier_message : forall c e m mr,
+  e_kind e = 0 -> e_author e <> me c ->
+  aget N.eqb m (msgs c) = Some mr -> m_epoch mr <= e_epoch e ->
+  aget N.eqb m (msgs (fst (deliver c e))) = Some mr.
+Proof. exact foreign_commit_touches_no_earlier_message. Qed.
+Print Assumptions C02_foreign_commit_touches_no_earlier_message.
+
+(* the counterexample to the statement without the hypothesis (all premises of the original hold, the conclusion fails) *)
+Theorem C02_commit_statement_counterexample :
+  e_kind cx_commit = 0 /\
+  aget N.eqb 9 (msgs cx_client) = Some (mkM MS_CREATED 1 7 9) /\ m_epoch (mkM MS_CREATED 1 7 9) <= e_epoch cx_commit /\
+  aget N.eqb 9 (msgs (fst (deliver cx_client cx_commit))) = Some (mkM MS_PROCESSED 1 7 9) /\
+  ~ not_own_wrapper_of cx_client cx_commit 9.
+Proof. exact commit_statement_counterexample. Qed.
+Print Assumptions C02_commit_statement_counterexample.
+
+(* hence a message stored at the epoch it was sent in survives the resolution of a fork on that epoch, whatever the
+   delivery order of the competing commits: it is still there, Processed, under the same epoch *)
+Theorem C02_fork_preserves_current_messages : forall c K ds m mr,
+  fork_ready c -> fork_set c K -> (forall e, In e ds -> In e K) ->
+  aget N.eqb m (msgs c) = Some mr -> m_epoch mr <= k_epoch (kc c) ->
+  aget N.eqb m (msgs (deliver_all c ds)) = Some mr.
+Proof. exact fork_preserves_current_messages. Qed.
+Print Assumptions C02_fork_preserves_current_messages.
+
+(* exactly once under any repetition: offering the same foreign application message any number of times leaves exactly
+   one stored copy, in the state the first delivery left it *)
+Theorem C02_repeated_delivery_one_copy : forall c e n,
+  Inv c -> (forall s, In s (queue c) -> sn_epoch s <> k_epoch (kc c)) ->
+  snd (deliver c e) = RApp -> e_author e <> me c -> NoDup (map fst (msgs c)) ->
+  let c' := deliver_all c (repeat e (S n)) in
+  msgs c' = msgs (fst (deliver c e)) /\
+  length (filter (fun kv => fst kv =? e_msg e) (msgs c')) = 1%nat.
+Proof. exact repeated_delivery_one_copy. Qed.
+Print Assumptions C02_repeated_delivery_one_copy.
